@@ -21,6 +21,12 @@ type blob struct {
 	indent bool    // produced by MarshalIndent
 	zip    *zipRec // the blob is a recorded ZIP archive, not XML
 	tokens []xtok
+	// token stream of the value computed at Marshal time from the live value (eagerTokens)
+	valTokens []xtok
+	eager     bool
+	// the bytes alias the content of this bytes.Buffer at this generation (iostub.go)
+	bufCell *value
+	bufGen  int
 }
 
 // snapVal deep-copies v including everything it points to.
@@ -108,10 +114,34 @@ func (x *exec) blobString(b *blob) value {
 	return sym{types.String, b.strVar}
 }
 
+// eagerTokens computes the token stream of a fresh Marshal blob right away, from the LIVE value:
+// hand-written MarshalXML methods thus run on the objects the caller passed (their side effects
+// on the document are real effects of saving), and the stream is what encoding/xml would have
+// produced at this moment. If the model cannot express the value the stream is left to be
+// derived from the snapshot on demand (and the path is abandoned then, if it is ever needed).
+func (x *exec) eagerTokens(fr *frame, b *blob, live value) {
+	defer func() {
+		if r := recover(); r != nil {
+			if _, isAbandon := r.(abandonPanic); isAbandon {
+				b.valTokens, b.eager = nil, false
+				return
+			}
+			panic(r)
+		}
+	}()
+	m := &xmlModeler{fr: fr, indent: b.indent}
+	m.marshal(live, b.typ, "", nil)
+	b.valTokens, b.eager = m.out, true
+	if m.raw {
+		b.raw = true
+	}
+}
+
 func init() {
 	externals["encoding/xml.Marshal"] = func(fr *frame, args []value) value {
 		itf := args[0].(iface)
 		b := fr.i.x.newBlob(itf.v, itf.t)
+		fr.i.x.eagerTokens(fr, b, itf.v)
 		return tuple{b, iface{}}
 	}
 	externals["encoding/xml.MarshalIndent"] = func(fr *frame, args []value) value {
@@ -120,6 +150,7 @@ func init() {
 		if ind, ok := args[2].(string); ok && ind != "" {
 			b.indent = true
 		}
+		fr.i.x.eagerTokens(fr, b, itf.v)
 		return tuple{b, iface{}}
 	}
 }
